@@ -3063,6 +3063,7 @@ func ParseDuration(s string) (time.Duration, error) {
 
 	var measure int64
 	var unit string
+	overflow := false
 
 	// Parsing loop.
 	for i < len(a) {
@@ -3092,29 +3093,29 @@ func ParseDuration(s string) (time.Duration, error) {
 		case 'n':
 			if i+1 < len(a) && a[i+1] == 's' {
 				unit = string(a[i : i+2])
-				d += time.Duration(n)
+				d, overflow = addDuration(d, n, time.Nanosecond, overflow)
 				i += 2
 				continue
 			}
 			return 0, ErrInvalidDuration
 		case 'u', 'µ':
-			d += time.Duration(n) * time.Microsecond
+			d, overflow = addDuration(d, n, time.Microsecond, overflow)
 		case 'm':
 			if i+1 < len(a) && a[i+1] == 's' {
 				unit = string(a[i : i+2])
-				d += time.Duration(n) * time.Millisecond
+				d, overflow = addDuration(d, n, time.Millisecond, overflow)
 				i += 2
 				continue
 			}
-			d += time.Duration(n) * time.Minute
+			d, overflow = addDuration(d, n, time.Minute, overflow)
 		case 's':
-			d += time.Duration(n) * time.Second
+			d, overflow = addDuration(d, n, time.Second, overflow)
 		case 'h':
-			d += time.Duration(n) * time.Hour
+			d, overflow = addDuration(d, n, time.Hour, overflow)
 		case 'd':
-			d += time.Duration(n) * 24 * time.Hour
+			d, overflow = addDuration(d, n, 24*time.Hour, overflow)
 		case 'w':
-			d += time.Duration(n) * 7 * 24 * time.Hour
+			d, overflow = addDuration(d, n, 7*24*time.Hour, overflow)
 		default:
 			return 0, ErrInvalidDuration
 		}
@@ -3122,7 +3123,7 @@ func ParseDuration(s string) (time.Duration, error) {
 	}
 
 	// Check to see if we overflowed a duration
-	if d < 0 && !isNegative {
+	if overflow {
 		return 0, fmt.Errorf("overflowed duration %d%s: choose a smaller duration or INF", measure, unit)
 	}
 
@@ -3130,6 +3131,16 @@ func ParseDuration(s string) (time.Duration, error) {
 		d = -d
 	}
 	return d, nil
+}
+
+// addDuration returns d + n*unit for non-negative d and n and a positive unit.
+// If the sum does not fit in a time.Duration, or an earlier addition already
+// overflowed, d is returned unchanged and the overflow flag is set.
+func addDuration(d time.Duration, n int64, unit time.Duration, overflow bool) (time.Duration, bool) {
+	if overflow || n > (math.MaxInt64-int64(d))/int64(unit) {
+		return d, true
+	}
+	return d + time.Duration(n)*unit, false
 }
 
 // FormatDuration formats a duration to a string.
